@@ -409,6 +409,82 @@ def r14_wild_params(text, m, ed, fns):
                     n += 1
 
 
+def r17_mut_self(text, m, ed, fns):
+    """`fn f(mut self, ..) { BODY }` (receiver taken by value and modified in place) is not parsed
+    inside verus!. Desugared to `fn f(self, ..) { let mut self_ = self; BODY[self := self_] }` --
+    the by-value receiver bound to a mutable local, which is what `mut self` means. Returns the
+    (body_s, body_e) ranges in which `self` was renamed."""
+    toks = tokenize(text)
+    renamed = []
+    for f in fns:
+        if not f.has_body:
+            continue
+        ps = [t for t in toks if f.params_open <= t.s < f.params_close]
+        hit = None
+        for i, (a, b) in enumerate(zip(ps, ps[1:])):
+            if a.kind == "id" and a.text == "mut" and b.kind == "id" and b.text == "self" \
+                    and not (i > 0 and (ps[i - 1].text == "&" or ps[i - 1].kind == "life")):
+                hit = (a, b)
+                break
+        if hit is None:
+            continue
+        a, b = hit
+        ed.add(a.s, b.s, "", "R17")
+        ed.add(f.body_s + 1, f.body_s + 1, " let mut self_ = self;", "R17", prio=-8)
+        for t in toks:
+            if f.body_s < t.s < f.body_e and t.kind == "id" and t.text == "self" and m[t.s:t.e] == "self":
+                ed.add(t.s, t.e, "self_", "R17")
+        renamed.append((f.body_s, f.body_e))
+    return renamed
+
+
+def r18_for_in_mut(text, m, ed, fns, renamed=()):
+    """`for PAT in &mut EXPR { BODY }` (slice::IterMut: this Verus has no usable invariant for it)
+    is desugared to the index loop it abbreviates for a Vec / slice:
+        let mut r18_iN: usize = 0; while r18_iN < EXPR.len() { let PAT = &mut EXPR[r18_iN]; BODY r18_iN += 1; }
+    Refused (exit 2) when BODY contains `continue` (it would skip the increment) or EXPR is not a
+    plain place expression (identifiers, `.`, tuple indices)."""
+    toks = tokenize(text)
+    n = 0
+    for f in fns:
+        if not f.has_body:
+            continue
+        idx = [k for k, t in enumerate(toks) if f.body_s <= t.s < f.body_e]
+        for k in idx:
+            t = toks[k]
+            if not (t.kind == "id" and t.text == "for" and m[t.s:t.e] == "for"):
+                continue
+            # find `in` at depth 0, then `& mut`
+            d, q = 0, k + 1
+            while not (toks[q].kind == "id" and toks[q].text == "in" and d == 0):
+                if toks[q].kind == "p" and toks[q].text in OPEN:
+                    d += 1
+                elif toks[q].kind == "p" and toks[q].text in CLOSE:
+                    d -= 1
+                q += 1
+            if not (toks[q + 1].text == "&" and toks[q + 2].text == "mut"):
+                continue
+            pat = text[toks[k + 1].s:toks[q - 1].e]
+            e0 = q + 3
+            e1 = e0
+            while toks[e1].text != "{":
+                if not (toks[e1].kind in ("id", "num") or toks[e1].text == "."):
+                    raise RsxError(f"R18: `for {pat} in &mut ...`: iterated expression is not a plain place")
+                e1 += 1
+            expr = text[toks[e0].s:toks[e1 - 1].e]
+            close = match_close(toks, e1)
+            body = m[toks[e1].s:toks[close].e]
+            if re.search(r"\bcontinue\b", body):
+                raise RsxError("R18: loop body contains `continue`")
+            n += 1
+            iv = f"r18_i{n}"
+            expr2 = re.sub(r"\bself\b", "self_", expr) if any(a <= t.s < b for (a, b) in renamed) else expr
+            ed.add(t.s, toks[e0].s, f"let mut {iv}: usize = 0; while {iv} < ", "R18")
+            ed.add(toks[e1 - 1].e, toks[e1 - 1].e, ".len()", "R18", prio=-1)
+            ed.add(toks[e1].e, toks[e1].e, f" let {pat} = &mut {expr2}[{iv}];", "R18", prio=-7)
+            ed.add(toks[close].s, toks[close].s, f" {iv} += 1; ", "R18", prio=7)
+
+
 R7_MACROS = ("eprintln", "println", "eprint", "print")
 
 
